@@ -1289,3 +1289,75 @@ def rotate_bounding_box(S):
     dy = [y[0] - pv[0], y[1] - pv[1]]
     x = [c * dy[0] - s * dy[1] + pv[0], s * dy[0] + c * dy[1] + pv[1]]
     S.ensure("encloses-the-rotated-domain", z3.Implies(A.in_pred(y, []), z3.And([z3.And(b[2 * i] <= x[i], x[i] <= b[2 * i + 1]) for i in range(2)])), [A.box_fact(y, [])])
+
+
+# ----------------------------------------------------------------------------- operator overloads, moved boundaries, user volumes of motions
+@scenario("C05", [DOMAIN + ".__add__", DOMAIN + ".__sub__", DOMAIN + ".__and__", DOMAIN + ".__mul__"], configs=["+", "-", "&", "*"])
+def operators_build_the_documented_composites(S):
+    """A + B, A - B, A & B, A * C are the union, cut, intersection and Cartesian product OF THESE OPERANDS IN THIS ORDER
+    (then the membership contracts of those classes apply); Boolean operators reject operands of different spaces"""
+    sp = S.new(R2, "x")
+    A = abstract_domain(S, "A", sp, {"t": 1})
+    if S.cfg == "*":
+        Bd = abstract_domain(S, "B", S.new(R1, "y"), {"t": 1})
+        dom = S.I.binop(ast.Mult(), A.obj, Bd.obj)
+        S.ensure("product-of-these-operands-in-this-order", dom.cls is S.find(PROD) and S.getattr(dom, "domain_a") is A.obj and S.getattr(dom, "domain_b") is Bd.obj)
+        N = S.int("N", 1)
+        XY, Tt = S.tensor("XY", [N, 3]), S.tensor("tt", [N, 1])
+        pts = S.new(POINTS, XY, S.I.binop(ast.Mult(), S.new(R2, "x"), S.new(R1, "y")))
+        res = S.method(dom, "_contains", pts, S.new(POINTS, Tt, S.new(R1, "t"))).val
+        S.forall("membership-is-the-conjunction-of-the-factors", res, lambda q: res.at([q[0], ()]) == z3.And(A.in_pred([zreal(XY.val.at([q[0], (c,)])) for c in range(2)], [zreal(Tt.val.at([q[0], ()]))]), Bd.in_pred([zreal(XY.val.at([q[0], (2,)]))], [zreal(Tt.val.at([q[0], ()]))])))
+        return
+    B = abstract_domain(S, "B", sp, {"t": 1})
+    op = {"+": "union", "-": "cut", "&": "intersection"}[S.cfg]
+    dom = S.I.binop({"+": ast.Add(), "-": ast.Sub(), "&": ast.BitAnd()}[S.cfg], A.obj, B.obj)
+    S.ensure("composite-of-these-operands-in-this-order", dom.cls is S.find(BOOL[op][0]) and S.getattr(dom, "domain_a") is A.obj and S.getattr(dom, "domain_b") is B.obj)
+    N = S.int("N", 1)
+    X, pts, params, pv = point_rows(S, N)
+    res = S.method(dom, "_contains", pts, params).val
+    S.forall("boolean-structure", res, lambda q: res.at(q) == combine(op, A.in_pred(cols(X.val, q[0], 2), pv(q[0])), B.in_pred(cols(X.val, q[0], 2), pv(q[0]))))
+    other = abstract_domain(S, "C", S.new(R1, "y"))
+    S.ensure_raises("operands-of-different-spaces-are-rejected", lambda: S.I.binop({"+": ast.Add(), "-": ast.Sub(), "&": ast.BitAnd()}[S.cfg], A.obj, other.obj), ["ValueError", "AssertionError"])
+
+
+@scenario("C05", [TRANS + ".boundary", ROT + ".boundary"], configs=["translate", "rotate"])
+def boundary_of_a_moved_domain_is_the_moved_boundary(S):
+    """Translate(D, tau).boundary / Rotate(D, R).boundary: membership = the inverse image of the boundary of D under the
+    SAME motion (same translation / rotation function, same pivot)"""
+    A = abstract_domain(S, "A", S.new(R2, "x"), {"t": 1})
+    N = S.int("N", 1)
+    X, pts, params, pv = point_rows(S, N)
+    if S.cfg == "translate":
+        tau = RowFn("tau", ["t"], 2, {"t": 1})
+        bd = S.getattr(S.new(TRANS, A.obj, tau), "boundary")
+        res = S.method(bd, "_contains", pts, params).val
+        S.forall("inverse-image-of-the-boundary-under-the-translation", res, lambda q: res.at([q[0], ()]) == A.boundary.in_pred([cols(X.val, q[0], 2)[c] - tau.value_terms([pv(q[0])[0]])[c] for c in range(2)], pv(q[0])))
+        return
+    ang = RowFn("angle", ["t"], 1, {"t": 1})
+    around = RowFn("around", ["t"], 2, {"t": 1})
+    bd = S.getattr(S.call(S.getattr(S.find(ROT), "from_angles"), A.obj, ang, rotate_around=around), "boundary")
+    res = S.method(bd, "_contains", pts, params).val
+
+    def goal(q):
+        x, p = cols(X.val, q[0], 2), pv(q[0])
+        a = around.value_terms([p[0]])
+        c, s = tlib.cos_sin(ang.value_terms([p[0]])[0])
+        dx, dy = x[0] - a[0], x[1] - a[1]
+        return res.at([q[0], ()]) == A.boundary.in_pred([c * dx + s * dy + a[0], -s * dx + c * dy + a[1]], p)
+
+    S.forall("inverse-image-of-the-boundary-under-the-rotation", res, goal)
+
+
+@scenario("C10", [TRANS + ".set_volume", ROT + ".set_volume", TRANS + ".volume", ROT + ".volume"], configs=["translate", "rotate"])
+def user_volume_of_a_moved_domain(S):
+    """set_volume on a Translate / Rotate overrides the measure reported by volume(), for every parameter row"""
+    # a real inner domain: the motions delegate set_volume / volume to it
+    inner = S.new("torchphysics.problem.domains.domain2D.circle.Circle", S.new(R2, "x"), RowFn("center", ["t"], 2, {"t": 1}), RowFn("radius", ["t"], 1, {"t": 1}))
+    dom = S.new(TRANS, inner, RowFn("tau", ["t"], 2, {"t": 1})) if S.cfg == "translate" else S.call(S.getattr(S.find(ROT), "from_angles"), inner, RowFn("angle", ["t"], 1, {"t": 1}))
+    uv = RowFn("uservol", ["t"], 1, {"t": 1})
+    S.method(dom, "set_volume", uv)
+    K = S.int("K", 1)
+    Tt = S.tensor("tt", [K, 1])
+    v = S.method(dom, "volume", S.new(POINTS, Tt, S.new(R1, "t"))).val
+    S.ensure("one-value-per-parameter-row", v.rank >= 2 and v.shape[0].size_term() == zint(K) and all(d.is_one for d in v.shape[1:]))
+    S.forall("user-volume-overrides", v, lambda q: v.at(q) == uv.value_terms([zreal(Tt.val.at([q[0], ()]))])[0])
